@@ -26,7 +26,7 @@ Definition key_ltb (a b : key) : bool := match key_cmp a b with Lt => true | _ =
 Definition key_leb (a b : key) : bool := match key_cmp a b with Gt => false | _ => true end.
 
 (* store keys: (level, key), ordered by level first (be16 level precedes the key bytes) *)
-Definition skey := (nat * key)%type.
+Notation skey := (nat * key)%type (only parsing).
 Definition skey_cmp (a b : skey) : comparison :=
   match Nat.compare (fst a) (fst b) with Eq => key_cmp (snd a) (snd b) | c => c end.
 
@@ -37,9 +37,10 @@ Definition raw_key (level : nat) (k : key) : list Z :=
 
 (* ------------------------------------------------------------------------------------------ *)
 (* Child, Node, Leaf.  A Leaf{Leaf: &Child{Index, Accumulation}} is stored as a one-entry node. *)
-Definition child := (key * Z)%type.
-Definition node := list child.
-Definition store := list (skey * node).
+(* (notations, not definitions: aliases that unfold to the same product / list types everywhere) *)
+Notation child := (key * Z)%type (only parsing).
+Notation node := (list (key * Z)) (only parsing).
+Notation store := (list ((nat * key) * list (key * Z))) (only parsing).
 
 Inductive err :=
 | EFuel          (* model ran out of fuel (never for fuel = root level + 3) *)
